@@ -1,1 +1,85 @@
-//! Minimal BEP 15 client side helpers for the live engines (independent of aquatic_udp_protocol)
+//! Client side of the live UDP engines: sockets on chosen loopback addresses,
+//! datagram logs, BEP 15 encoding through the independent reference codec.
+
+use std::net::{IpAddr, SocketAddr, UdpSocket};
+use std::time::{Duration, Instant};
+
+use vcore::refudp::*;
+
+pub struct Client {
+    pub sock: UdpSocket,
+    pub local: SocketAddr,
+    /// tracker address this client talks to (v4 socket or v6 / dual-stack socket)
+    pub tracker: SocketAddr,
+    pub sent: u64,
+}
+
+impl Client {
+    pub fn new(bind_ip: IpAddr, tracker: SocketAddr) -> std::io::Result<Self> {
+        let sock = UdpSocket::bind(SocketAddr::new(bind_ip, 0))?;
+        sock.set_read_timeout(Some(Duration::from_millis(20)))?;
+        let s2 = socket2::SockRef::from(&sock);
+        let _ = s2.set_recv_buffer_size(4 << 20);
+        let local = sock.local_addr()?;
+        Ok(Self { sock, local, tracker, sent: 0 })
+    }
+    pub fn send(&mut self, bytes: &[u8]) -> std::io::Result<()> {
+        self.sock.send_to(bytes, self.tracker)?;
+        self.sent += 1;
+        Ok(())
+    }
+    /// Everything that arrives within `wait` (returns early after `want` datagrams)
+    pub fn recv_some(&self, want: usize, wait: Duration) -> Vec<(Vec<u8>, SocketAddr)> {
+        let mut out = Vec::new();
+        let t0 = Instant::now();
+        let mut buf = [0u8; 65536];
+        while out.len() < want && t0.elapsed() < wait {
+            match self.sock.recv_from(&mut buf) {
+                Ok((n, from)) => out.push((buf[..n].to_vec(), from)),
+                Err(_) => {}
+            }
+        }
+        out
+    }
+    /// Drain without waiting longer than `quiet` for the next datagram
+    pub fn drain(&self, quiet: Duration) -> Vec<(Vec<u8>, SocketAddr)> {
+        let mut out = Vec::new();
+        let mut buf = [0u8; 65536];
+        let mut last = Instant::now();
+        while last.elapsed() < quiet {
+            if let Ok((n, from)) = self.sock.recv_from(&mut buf) {
+                out.push((buf[..n].to_vec(), from));
+                last = Instant::now();
+            }
+        }
+        out
+    }
+    /// connect handshake; None if no reply within 2 s
+    pub fn connect(&mut self, tid: i32) -> Option<i64> {
+        for _ in 0..20 {
+            self.send(&encode_request(&RefRequest::Connect { transaction_id: tid })).ok()?;
+            for (bytes, _) in self.recv_some(1, Duration::from_millis(100)) {
+                if let Some(RefResponse::Connect { transaction_id, connection_id }) = decode_response(&bytes, true) {
+                    if transaction_id == tid {
+                        return Some(connection_id);
+                    }
+                }
+            }
+        }
+        None
+    }
+    pub fn is_v4_source(&self) -> bool {
+        match self.local.ip() {
+            IpAddr::V4(_) => true,
+            IpAddr::V6(a) => a.to_ipv4_mapped().is_some(),
+        }
+    }
+}
+
+pub fn announce_bytes(connection_id: i64, tid: i32, info_hash: [u8; 20], port: u16, event: i32, left: i64, num_want: i32, ip_field: [u8; 4]) -> Vec<u8> {
+    encode_request(&RefRequest::Announce(RefAnnounce { connection_id, transaction_id: tid, info_hash, peer_id: [0x2d; 20], downloaded: 0, left, uploaded: 0, event, ip: ip_field, key: 0, num_want, port }))
+}
+
+pub fn scrape_bytes(connection_id: i64, tid: i32, hashes: &[[u8; 20]]) -> Vec<u8> {
+    encode_request(&RefRequest::Scrape { connection_id, transaction_id: tid, hashes: hashes.to_vec() })
+}
